@@ -112,6 +112,11 @@ func translateFunc(p *Pkg, key string, fd *ast.FuncDecl, isInit bool) *Func {
 		if !ft.changed {
 			break
 		}
+		if round == 19 {
+			// no fixpoint: give up soundly
+			fmt.Fprintf(os.Stderr, "effgen: no points-to fixpoint for %s\n", key)
+			ft.write(unknownSet.copy(), "")
+		}
 	}
 	f.Body = ft.body
 	f.Sum = ft.summary(f.NParams)
